@@ -81,6 +81,16 @@ func (w *World) opQuery(n *Node, s *Step) {
 	w.stats.Events++
 	r := SubRng(s.Seed^uint64(n.idx), "query")
 	live := st.Live()
+	if w.opt.Property == "C14" && s.Mode != "pmissing" && r.Pct(12) {
+		// the stand-alone helpers work on proofs alone, so they can be asked about a
+		// state no forest of this run is in: the same slots, but one live leaf carries
+		// the bytes of an internal node (or root) that is not above it.  Positions,
+		// canonical proofs and roots of that state come from the model as usual.
+		if st2 := coincident(st, r, false); st2 != nil {
+			w.stats.Reach["c14_leaf_equals_node_hash"]++
+			st, live = st2, st2.Live()
+		}
+	}
 	A := w.biasedSet(r, st, live, s.Picks)
 	B := w.biasedSet(r, st, live, rotate(s.Picks, 3))
 	if w.opt.Property == "C14" && len(live) <= 5 && len(live) >= 2 && r.Pct(25) && s.Mode != "pmissing" {
@@ -130,6 +140,10 @@ func (w *World) opQuery(n *Node, s *Step) {
 	case "missing":
 		w.checkMissing(n, st, A, B)
 	case "pmissing":
+		if n.isPartial() && w.opt.Property == "C14" && r.Pct(25) {
+			w.partialCoincident(n, st, r)
+			return
+		}
 		if n.isPartial() && !n.tainted {
 			hs := padH(A)
 			pr, _ := st.Layout().CanonProof(hs)
